@@ -375,7 +375,8 @@ CWRAPPER_OUTPUT_TYPE basic_beta(basic s, const basic a, const basic b);
 //! Assigns s = polygamma(a, b).
 CWRAPPER_OUTPUT_TYPE basic_polygamma(basic s, const basic a, const basic b);
 
-//! Serialize an expression
+//! Serialize an expression; returns NULL (and sets *size to 0) if the
+//! expression cannot be serialized
 char *basic_dumps(const basic s, unsigned long *size);
 //! Deserialize an expression
 CWRAPPER_OUTPUT_TYPE basic_loads(basic s, const char *c, unsigned long size);
